@@ -28,14 +28,14 @@ type Prover struct {
 	vars    map[interface{}]int
 	names   []string
 	mem     map[*ssa.Function]*memVN
-	inv     map[*ssa.Function]map[*ssa.Phi][]int64 // header phi -> proven lower bounds
+	inv     map[*ssa.Function]map[*ssa.Phi][]invT // header phi -> proven invariants
 	invBusy map[*ssa.Function]bool
 	nextCtx int
 	Queries int
 }
 
 func (c *Ctx) NewProver() *Prover {
-	return &Prover{c: c, vars: map[interface{}]int{}, mem: map[*ssa.Function]*memVN{}, inv: map[*ssa.Function]map[*ssa.Phi][]int64{}, invBusy: map[*ssa.Function]bool{}}
+	return &Prover{c: c, vars: map[interface{}]int{}, mem: map[*ssa.Function]*memVN{}, inv: map[*ssa.Function]map[*ssa.Phi][]invT{}, invBusy: map[*ssa.Function]bool{}}
 }
 
 func (p *Prover) varOf(k interface{}, name string) int {
@@ -60,7 +60,7 @@ type factCtx struct {
 	staleHdr *ssa.BasicBlock
 	staleID  int
 	openFns  map[*ssa.Function]bool // callees being summarised (recursion guard)
-	hyp      map[*ssa.Phi][]int64   // during invariant inference: hypotheses for header phis
+	hyp      map[*ssa.Phi][]invT    // during invariant inference: hypotheses for header phis
 	useHyp   bool
 	depth    int
 }
@@ -622,8 +622,8 @@ func (fc *factCtx) definePhi(phi *ssa.Phi, self Lin, isLen bool) {
 	}
 	// header phi
 	if fc.useHyp {
-		for _, lb := range fc.hyp[phi] {
-			fc.le(leExpr(constLin(lb), self))
+		for _, iv := range fc.hyp[phi] {
+			fc.le(iv.lin(fc, self))
 		}
 		return
 	}
@@ -672,8 +672,8 @@ func (fc *factCtx) definePhi(phi *ssa.Phi, self Lin, isLen bool) {
 		return
 	}
 	if !isLen {
-		for _, lb := range fc.p.invariants(phi.Parent())[phi] {
-			fc.le(leExpr(constLin(lb), self))
+		for _, iv := range fc.p.invariants(phi.Parent())[phi] {
+			fc.le(iv.lin(fc, self))
 		}
 	}
 }
@@ -912,7 +912,30 @@ func (fc *factCtx) cond(cd Cond) {
 
 // ---------- loop invariants (Houdini over lower-bound templates) ----------
 
-func (p *Prover) invariants(fn *ssa.Function) map[*ssa.Phi][]int64 {
+// invT is an invariant template for an integer loop-header phi:
+// phi >= C (ge) or phi <= len(LenOf) + C.
+type invT struct {
+	ge    bool
+	C     int64
+	LenOf ssa.Value
+	Val   ssa.Value // ge with Val: phi >= Val + C (Val defined outside the loop)
+}
+
+func (iv invT) lin(fc *factCtx, self Lin) Lin {
+	if iv.ge {
+		if iv.Val != nil {
+			lb := fc.iexpr(iv.Val)
+			lb.K += iv.C
+			return leExpr(lb, self)
+		}
+		return leExpr(constLin(iv.C), self)
+	}
+	ub := fc.lexpr(iv.LenOf)
+	ub.K += iv.C
+	return leExpr(self, ub)
+}
+
+func (p *Prover) invariants(fn *ssa.Function) map[*ssa.Phi][]invT {
 	if r, ok := p.inv[fn]; ok {
 		return r
 	}
@@ -921,8 +944,14 @@ func (p *Prover) invariants(fn *ssa.Function) map[*ssa.Phi][]int64 {
 	}
 	p.invBusy[fn] = true
 	defer delete(p.invBusy, fn)
-	cand := map[*ssa.Phi][]int64{}
+	cand := map[*ssa.Phi][]invT{}
 	var phis []*ssa.Phi
+	var lens []ssa.Value
+	for _, pr := range fn.Params {
+		if hasLen(pr.Type()) {
+			lens = append(lens, pr)
+		}
+	}
 	for _, b := range fn.Blocks {
 		if !p.c.IsLoopHeader(b) {
 			continue
@@ -933,7 +962,24 @@ func (p *Prover) invariants(fn *ssa.Function) map[*ssa.Phi][]int64 {
 				break
 			}
 			if isIntType(ph.Type()) {
-				cand[ph] = []int64{-1, 0, 1}
+				cs := []invT{{ge: true, C: -1}, {ge: true, C: 0}, {ge: true, C: 1}}
+				for _, x := range lens {
+					cs = append(cs, invT{LenOf: x, C: 0}, invT{LenOf: x, C: -1})
+				}
+				// phi >= its entry value (monotone counters)
+				for i, e := range ph.Edges {
+					if blockDom(b, b.Preds[i]) {
+						continue // back edge
+					}
+					if _, isC := e.(*ssa.Const); isC {
+						continue
+					}
+					if def, ok := e.(ssa.Instruction); ok && def.Block() != nil && p.c.Loops(fn).headers[def.Block()][b] {
+						continue
+					}
+					cs = append(cs, invT{ge: true, Val: e})
+				}
+				cand[ph] = cs
 				phis = append(phis, ph)
 			}
 		}
@@ -941,8 +987,8 @@ func (p *Prover) invariants(fn *ssa.Function) map[*ssa.Phi][]int64 {
 	for changed := true; changed; {
 		changed = false
 		for _, ph := range phis {
-			var keep []int64
-			for _, lb := range cand[ph] {
+			var keep []invT
+			for _, iv := range cand[ph] {
 				ok := true
 				for i, e := range ph.Edges {
 					pred := ph.Block().Preds[i]
@@ -952,14 +998,14 @@ func (p *Prover) invariants(fn *ssa.Function) map[*ssa.Phi][]int64 {
 					if cd, okc := edgeCond(pred, ph.Block()); okc {
 						fc.cond(cd)
 					}
-					goal := leExpr(constLin(lb), fc.iexpr(e))
+					goal := iv.lin(fc, fc.iexpr(e))
 					if !fc.entails(goal) {
 						ok = false
 						break
 					}
 				}
 				if ok {
-					keep = append(keep, lb)
+					keep = append(keep, iv)
 				} else {
 					changed = true
 				}
